@@ -105,6 +105,7 @@ class Exec(HeapMixin, ExprMixin, CallMixin, StmtMixin):
         self.ext_contracts = {}
         self.spec_globals = {}
         self.assumptions_used = set()
+        self.callee_used = set()
         self.cur = None              # contract under verification
         self.view = None
         self.cur_fi = None
@@ -253,9 +254,30 @@ class Exec(HeapMixin, ExprMixin, CallMixin, StmtMixin):
         return self.eval_in_module(self.prog.module_globals[module][name], module)
 
     # ------------------------------------------------------------------ obligations
+    # ------------------------------------------------------------------ focus (one property at a time)
+    # A check of property P verifies its plan's functions using only clauses that P's check itself discharges:
+    # tagged clauses (ensures / invariants / monitors / site assertions) of other properties are neither obliged for
+    # P nor assumed as hypotheses (staging, loop heads, callee postconditions); untagged obligations of a function
+    # (safety, exceptions, call preconditions, default frames) count for every property whose plan lists it.
+    focus = None         # None (all tags) | dict(cid=..., deps={contract key: [tags that count as cid there]})
+
+    def focus_tags(self, key=None):
+        if self.focus is None:
+            return None
+        if key is None:
+            key = self.cur.key if self.cur is not None else ''
+        d = self.focus.get('deps') or {}
+        return {self.focus['cid']} | set(d.get(key, ())) | set(d.get(key.split('#')[0], ()))
+
+    def in_focus(self, props, key=None):
+        ft = self.focus_tags(key)
+        return ft is None or props is None or bool(ft & set(props))
+
     def oblige(self, name, goal, kind='post', props=None, meta=None):
         if props is None:
-            props = self.cur.props if self.cur is not None else []
+            props = list(self.cur.props) if self.cur is not None else []
+            if self.focus is not None and self.focus['cid'] not in props:
+                props.append(self.focus['cid'])
         fname = self.cur_fi.qualname if self.cur_fi is not None else '?'
         k = self.ob_counter.get(name, 0)
         self.ob_counter[name] = k + 1
@@ -715,6 +737,8 @@ class Exec(HeapMixin, ExprMixin, CallMixin, StmtMixin):
             props = spec.get('props')
             if isinstance(pred, tuple):
                 pred, props = pred
+            if not self.in_focus(props):
+                continue
             for label, term in self.spec_terms(pred, env):
                 self.oblige(f'{kind}:L{ordn}:{label}', term, kind='inv', props=props)
                 self.assume(term)       # staged
@@ -726,8 +750,11 @@ class Exec(HeapMixin, ExprMixin, CallMixin, StmtMixin):
         env = self.inv_env()
         env['entry'] = VOld(dict(self.frame.locals), entry_state)
         for pred in spec.get('invariant', []):
+            props = spec.get('props')
             if isinstance(pred, tuple):
-                pred = pred[0]
+                pred, props = pred
+            if not self.in_focus(props):
+                continue
             for label, term in self.spec_terms(pred, env):
                 self.assume(term)
         self._loop_head = self.S.copy()
@@ -807,6 +834,8 @@ class Exec(HeapMixin, ExprMixin, CallMixin, StmtMixin):
                 if c.kind == 'abstract':
                     env = menv
             for tag, preds in c.monitor.items():
+                if not self.in_focus([tag]):
+                    continue
                 for pred in preds:
                     for label, term in self.spec_terms(pred, menv):
                         self.oblige(f'assert:{label}', term, kind='assert', props=[tag])
@@ -842,7 +871,13 @@ class Exec(HeapMixin, ExprMixin, CallMixin, StmtMixin):
                     if mustp is not None and rd.get('iff', True):
                         terms = [t for _, t in self.spec_terms(mustp, env2)]
                         sink(z3.Not(z3.And(terms)))
+                if c.kind != 'abstract':
+                    self.callee_used.add(c.key)
                 for tag, preds in c.ensures.items():
+                    # an abstract (user-code / assumed) contract is an assumption as a whole; a checked callee's
+                    # clause is a hypothesis only if this property's check discharges it
+                    if c.kind != 'abstract' and not self.in_focus([tag], c.key):
+                        continue
                     for pred in preds:
                         for label, term in self.spec_terms(pred, env2):
                             sink(term)
@@ -855,7 +890,11 @@ class Exec(HeapMixin, ExprMixin, CallMixin, StmtMixin):
                 for label, term in self.spec_terms(rd['when'], env2):
                     self.assume(term)
             self.havoc(rd.get('modifies', []), env)
+            if c.kind != 'abstract':
+                self.callee_used.add(c.key)
             for tag, preds in (rd.get('ensures') or {}).items():
+                if c.kind != 'abstract' and not self.in_focus([tag], c.key):
+                    continue
                 for pred in preds:
                     for label, term in self.spec_terms(pred, env2):
                         self.assume(term)
@@ -914,6 +953,8 @@ class Exec(HeapMixin, ExprMixin, CallMixin, StmtMixin):
         env['old'] = VOld(self.top_env, self.pre_state)
         if phase == 'pre':
             for pred in site.get('assert', []):
+                if not self.in_focus(site.get('props')):
+                    continue
                 for label, term in self.spec_terms(pred, env):
                     self.oblige(f'site{k}:{label}', term, kind='assert', props=site.get('props'))
                     self.assume(term)
